@@ -5,9 +5,14 @@ open Tengo.Model.Spec Tengo.Model.Opcodes
 
 /-! ### frames -/
 
-/-- The slot OpCall reads its callee from. -/
+theorem fetch_op (f : Fn) (ip : Int) : (fetch f ip).op = byteAt f ip := by
+  unfold fetch
+  dsimp only
+  split <;> rfl
+
+/-- The slot OpCall reads its callee from (below the arguments the instruction's first operand counts). -/
 def calleeOf (f : Fn) (c : Core) : Value :=
-  getSlot c.regs (c.regs.sp - 1 - byteAt f (c.cur.ip + 1 + 1))
+  getSlot c.regs (c.regs.sp - 1 - (fetch f (c.cur.ip + 1)).a0)
 
 /-- What one dispatch may do to the frame stack. -/
 inductive FrameStep (f : Fn) (c c' : Core) : Prop
@@ -49,8 +54,8 @@ macro "post_walk" : tactic => `(tactic| repeat' (first
   | (with_reducible apply PostX_bind'; intro _)
   | split))
 
-theorem execCall_frames (code : Code) (f : Fn) (c : Core) :
-    PostX (execCall code f (c.cur.ip + 1) c) (StepPost f c) := by
+theorem execCall_frames (code : Code) (f : Fn) (c : Core) (spread : Nat) :
+    PostX (execCall code f (c.cur.ip + 1) (fetch f (c.cur.ip + 1)).a0 spread c) (StepPost f c) := by
   unfold execCall
   dsimp only
   post_walk
@@ -59,8 +64,8 @@ theorem execCall_frames (code : Code) (f : Fn) (c : Core) :
     | (apply PostX_pure; exact FrameStep.same rfl rfl rfl rfl rfl)
 
 
-theorem execReturn_frames (f : Fn) (ip : Int) (c : Core) (hop : byteAt f (c.cur.ip + 1) = opReturn) :
-    PostX (execReturn f ip c) (StepPost f c) := by
+theorem execReturn_frames (f : Fn) (a0 : Nat) (c : Core) (hop : byteAt f (c.cur.ip + 1) = opReturn) :
+    PostX (execReturn a0 c) (StepPost f c) := by
   unfold execReturn
   dsimp only
   post_walk
@@ -77,10 +82,10 @@ theorem exec_frames (code : Code) (c : Core) :
     split
     · exact PostX_fault _
     · split
-      · exact PostX_mono (execCall_frames code f c) (fun o h => ⟨f, hf, h⟩)
+      · exact PostX_mono (execCall_frames code f c _) (fun o h => ⟨f, hf, h⟩)
       · split
         · rename_i hret
-          exact PostX_mono (execReturn_frames f _ c (by simpa using hret)) (fun o h => ⟨f, hf, h⟩)
+          exact PostX_mono (execReturn_frames f _ c (by rw [← fetch_op]; simpa using hret)) (fun o h => ⟨f, hf, h⟩)
         · split
           · apply PostX_pure
             exact ⟨f, hf, rfl⟩
@@ -137,8 +142,8 @@ theorem self_tail_call_reuses_frame (code : Code) (c : Core) (f : Fn) (cr : Nat)
   dsimp only
   split
   · exact PostX_fault _
-  rw [if_pos (by simp [hop])]
-  refine PostX_mono (execCall_frames code f c) ?_
+  rw [if_pos (by rw [fetch_op]; simp [hop])]
+  refine PostX_mono (execCall_frames code f c _) ?_
   intro o h c' a ho
   subst ho
   simp only [StepPost] at h
